@@ -203,6 +203,7 @@ func (e *Enc) instr(cur *cursor, ins ssa.Instruction) {
 		el := x.Type().Underlying().(*types.Slice).Elem()
 		e.zeroFill(cur, a, el)
 		e.setVal(cur, x, fmt.Sprintf("(mk_slice %s 0 %s %s)", a, n, c))
+		e.freshAddrs[fc.vals[x].T] = true
 	case *ssa.MakeMap:
 		a := e.allocAddr(cur)
 		mt := x.Type().Underlying().(*types.Map)
@@ -217,6 +218,7 @@ func (e *Enc) instr(cur *cursor, ins ssa.Instruction) {
 		if !isNonNilValue(x.Map) {
 			e.safety(cur, "mapnil", fmt.Sprintf("(not (= %s Nil))", mp), x.Pos(), "assignment to entry in nil map")
 		}
+		e.elemStoreOblige(cur, v, x.Map.Type().Underlying().(*types.Map).Elem(), x.Pos(), "map value")
 		dn, ds, vn, vs := e.mapArrs(x.Map.Type())
 		d := e.heapGet(st, dn, ds)
 		e.heapSet(st, dn, ds, fmt.Sprintf("(store %s %s (store (select %s %s) %s true))", d, mp, d, mp, k))
@@ -363,6 +365,11 @@ func (e *Enc) store(cur *cursor, addr, val Val, pos token.Pos, addrV ssa.Value) 
 			e.safety(cur, "nil", fmt.Sprintf("(not (= %s Nil))", a), pos, "nil dereference on store")
 		}
 		e.storeAt(st, a, pt.Elem(), vt)
+		if ia, ok := addrV.(*ssa.IndexAddr); ok {
+			if _, isSl := ia.X.Type().Underlying().(*types.Slice); isSl {
+				e.elemStoreOblige(cur, vt, pt.Elem(), pos, "slice element")
+			}
+		}
 		if isStruct(pt.Elem()) {
 			e.tinvObligeStore(cur, a, pt.Elem(), pos, "*"+pt.Elem().String())
 		}
@@ -442,6 +449,11 @@ func (e *Enc) unop(cur *cursor, x *ssa.UnOp) {
 			}
 			e.setVal(cur, x, e.loadAt(st, a, x.Type()))
 			e.assume(cur.guard, e.typeAssume(st, fc.vals[x].T, x.Type()))
+			if ia, ok := x.X.(*ssa.IndexAddr); ok {
+				if _, isSl := ia.X.Type().Underlying().(*types.Slice); isSl {
+					e.elemLoadAssume(cur, fc.vals[x].T, x.Type(), fmt.Sprintf("(sl_base %s)", e.asTerm(e.value(fc, ia.X))))
+				}
+			}
 		}
 	case token.NOT:
 		e.setVal(cur, x, fmt.Sprintf("(not %s)", e.asTerm(e.value(fc, x.X))))
@@ -807,6 +819,9 @@ func (e *Enc) lookup(cur *cursor, x *ssa.Lookup) {
 	present := e.define("present", "Bool", fmt.Sprintf("(and (not (= %s Nil)) (select (select %s %s) %s))", base, e.heapGet(st, dn, ds), base, k))
 	val := e.define("mval", e.m.sortOf(mt.Elem()), fmt.Sprintf("(ite %s (select (select %s %s) %s) %s)", present, e.heapGet(st, vn, vs), base, k, e.m.zero(mt.Elem())))
 	e.assume(cur.guard, e.typeAssume(st, val, mt.Elem()))
+	if e.elemNonNil(mt.Elem()) && !e.isFreshAddr(base) {
+		e.assume(cur.guard, fmt.Sprintf("(=> %s (not (= %s %s)))", present, val, e.nilOfType(mt.Elem())))
+	}
 	if x.CommaOk {
 		fc.vals[x] = Val{K: vTuple, Tuple: []Val{term(val, mt.Elem()), term(present, types.Typ[types.Bool])}}
 	} else {
@@ -891,6 +906,9 @@ func (e *Enc) next(cur *cursor, x *ssa.Next) {
 	e.assume(cur.guard, fmt.Sprintf("(=> (not %s) (or (= %s Nil) (forall ((kk %s)) (! (=> (select %s kk) (select %s kk)) :pattern ((select %s kk))))))", okT, mp, ks, dom, visited, visited))
 	v := e.define("mval", e.m.sortOf(mt.Elem()), fmt.Sprintf("(select (select %s %s) %s)", e.heapGet(st, vn, vs), mp, k))
 	e.assume(cur.guard, e.typeAssume(st, v, mt.Elem()))
+	if e.elemNonNil(mt.Elem()) && !e.isFreshAddr(mp) {
+		e.assume(cur.guard, fmt.Sprintf("(=> %s (not (= %s %s)))", okT, v, e.nilOfType(mt.Elem())))
+	}
 	st.iter[r] = e.define("iter", "(Array "+ks+" Bool)", fmt.Sprintf("(ite %s (store %s %s true) %s)", okT, visited, k, visited))
 	fc.vals[x] = Val{K: vTuple, Tuple: []Val{term(okT, tt.At(0).Type()), term(k, tt.At(1).Type()), term(v, tt.At(2).Type())}}
 }
